@@ -541,6 +541,27 @@ def c04(tier, seed):
                             k += 1
     return out
 
+def c17(tier, seed):
+    """a trader flattened by an opposite OpenPosition (the engine keeps a zero-size record remembering the
+    old direction) opens again, on either side, with slippage limits on both sides of the executed amount;
+    a trader who never traded sends the same message as control"""
+    out = []
+    k = 0
+    for coll in ("cw20", "native"):
+        native = coll == "native"
+        for first in ("buy", "sell"):
+            back = "sell" if first == "buy" else "buy"
+            for m in (10000, 2500):
+                for again in ("buy", "sell"):
+                    for limit in (0, 1, 900, 1112, 1200, 100000):
+                        ops = [block(15), opn("tr1", first, m, 100, funds=m if native else 0), block(15),
+                               opn("tr1", back, m, 100, funds=0), query("engine", "position", dict(vamm="vamm1", trader="tr1")), block(15),
+                               opn("tr2", again, 10000, 100, limit=limit, funds=10000 if native else 0),
+                               opn("tr1", again, 10000, 100, limit=limit, funds=10000 if native else 0)]
+                        out.append(dict(id="c17-%d" % k, deploy=dep(coll), ops=ops))
+                        k += 1
+    return out
+
 def c13rev(tier, seed):
     """reversals that re-open, across the relation between the fees, the old position's equity and the new
     margin (the native required-funds bookkeeping has one arm per ordering): cw20 scenarios for the twin runner"""
@@ -670,6 +691,8 @@ def for_property(pid, tier, seed):
         return [("c10alias", c10(tier, seed)), ("c08sweeps", c08(tier, seed)), ("c16orderings", c16(tier, seed)), ("c07vault", c07(tier, seed))]
     if pid in ("C12", "C04"):
         return [("c04reverse", c04r(tier, seed)), ("c04partial", c04p(tier, seed)), ("c04funding", c04(tier, seed)), ("c08sweeps", c08(tier, seed)), ("c16orderings", c16(tier, seed)), ("c07vault", c07(tier, seed))]
+    if pid == "C17":
+        return [("c17stale", c17(tier, seed))]
     if pid == "C11":
         return [("c04partial", c04p(tier, seed)), ("c04funding", c04(tier, seed)), ("c06funding", c06f(tier, seed))]
     return []
